@@ -214,3 +214,45 @@ prop("C11", level="proof", bounded=[],
                  "outcome mapping and the positional/keyword split of Match.run proved; full-text and case-sensitive "
                  "matching (parse/re) and check_match spans are bounded",
      notes=["add_step_definition / ambiguity detection: bounded stand-in (registration histories)"])
+
+# -- 're' matcher arguments: one reported argument per regex group, in group order, offsets of that group ------------
+oracle("re_match", ["val", "val"], "val")       # compiled.match(text)
+oracle("re_groups", ["val"], "val")             # match.groups() (a tuple)
+oracle("re_start", ["val", "val"], "val")
+oracle("re_end", ["val", "val"], "val")
+oracle("re_group_name", ["val", "val"], "val")  # name of the group with that number (None if unnamed)
+contract("abs:re.Pattern.match", trusted=True, pos_params=["self", "text"], pure=True, result="any",
+         ensures={"value": "result == re_match(self, text)"}, doc="compiled.match(text) (A-lib: a function of expression and text)")
+contract("abs:re.Match.groups", trusted=True, pos_params=["self"], pure=True, result="seq:any",
+         ensures={"value": "result is re_groups(self)"}, doc="match.groups(): one entry per group, None for a group that did not participate")
+contract("abs:re.Match.start", trusted=True, pos_params=["self", "group"], pure=True, result="any", ensures={"value": "result == re_start(self, group)"})
+contract("abs:re.Match.end", trusted=True, pos_params=["self", "group"], pure=True, result="any", ensures={"value": "result == re_end(self, group)"})
+contract("abs:group_index.get", trusted=True, pos_params=["self", "index", "default"], pure=True, result="opt:str",
+         ensures={"value": "result == re_group_name(self, index)"}, doc="number -> name map built from regex.groupindex")
+contract("new:Argument", trusted=True, pos_params=["start", "end", "original", "value", "name"], defaults={"name": None},
+         fresh_result="Argument",
+         ensures={"stores": "result.start == start and result.end == end and result.original == original and result.value == value "
+                            "and result.name == name"}, doc="behave.model_core.Argument(start, end, original, value, name)")
+GR = "as_list(re_groups(re_match(self._regex, step_text)), 'any')"
+contract(MT + "RegexMatcher.check_match", props=P, params={"self": "ref:RegexMatcher", "step_text": "str"},
+         self_classes=["RegexMatcher", "SimplifiedRegexMatcher", "CucumberRegexMatcher"], result="opt:seq:ref:Argument",
+         callsites={"self.regex.match": "abs:re.Pattern.match", "matched.groups": "abs:re.Match.groups",
+                    "matched.start": "abs:re.Match.start", "matched.end": "abs:re.Match.end",
+                    "group_index.get": "abs:group_index.get", "Argument": "new:Argument"},
+         exprs={"dict(((y, x) for x, y in self.regex.groupindex.items()))": ("fresh", "any")},
+         modifies=["self._regex"], locals={"args": "seq:ref:Argument"},
+         loops=[Loop(modifies=["list(args)"], invariant={
+             "one-argument-per-group-so-far-in-group-order":
+                 "len(args) == _i and forall(lambda k: implies(0 <= k < _i, is_fresh(as_list(args, 'ref:Argument')[k]) and as_list(args, 'ref:Argument')[k].value == _seq[k] and "
+                 "as_list(args, 'ref:Argument')[k].start == re_start(matched, k + 1) and as_list(args, 'ref:Argument')[k].end == re_end(matched, k + 1)))",
+             "same": "_seq is re_groups(matched)"})],
+         ensures={
+             "no-match-no-arguments": "implies(not truthy(re_match(self._regex, step_text)), is_none(result))",
+             "one-argument-per-regex-group-in-group-order (a group that did not participate is reported as None, not dropped: "
+             "positional step parameters keep their positions)":
+                 "implies(truthy(re_match(self._regex, step_text)), not is_none(result) and len(as_list(result, 'ref:Argument')) == len(%s) and "
+                 "forall(lambda k: implies(0 <= k < len(%s), as_list(result, 'ref:Argument')[k].value == %s[k] and "
+                 "as_list(result, 'ref:Argument')[k].start == re_start(re_match(self._regex, step_text), k + 1) and "
+                 "as_list(result, 'ref:Argument')[k].end == re_end(re_match(self._regex, step_text), k + 1))))" % (GR, GR, GR)},
+         doc="positional arguments are passed to the step function by position: dropping an optional group that did not "
+             "match would shift every later argument")
